@@ -558,7 +558,7 @@ func inURLParse(fr *frame, args []value) value {
 		// light consistency axioms so that models replay against the real parser
 		sch := "(url_scheme " + s.e + ")"
 		_, schKnown := pc.constOf(sch)
-		ax := "(or (= " + sch + " \"\") (and (str.prefixof (str.++ " + sch + " \":\") " + s.e + ") (str.in_re " + sch + " (re.+ (re.range \"a\" \"z\")))))"
+		ax := "(or (= " + sch + " \"\") (and (str.prefixof (str.++ " + sch + " \":\") " + s.e + ")))"
 		if !pc.known[ax] && !schKnown {
 			pc.assertTerm(ax)
 		}
